@@ -92,3 +92,11 @@ func init() {
 	// C03 — attestations and the Foundation address update (whole functions)
 	tcodeRoots = append(tcodeRoots, "consensus.validateAttestations", "consensus.validateFoundationUpdate")
 }
+
+func init() {
+	// C03 / C07 — validateRevision as a whole: which contract a revision is judged against (the latest in-block
+	// revision if there is one, else the parent element's contract), then the rule chain
+	regionRoots = append(regionRoots,
+		regionSpec{fn: "consensus.validateV2FileContracts", name: "validateRevision", closure: "validateRevision"},
+	)
+}
